@@ -39,9 +39,14 @@ type variant struct {
 	Cap    int
 	Expiry bool
 	Sync   bool
+	// Neg builds the cache with a negative expiry (and the fake clock); Expiry is false then: nothing ever expires
+	Neg bool
 }
 
 func (v variant) String() string {
+	if v.Neg {
+		return fmt.Sprintf("%s/cap=%d/expiry=negative/sync=%v", v.Policy, v.Cap, v.Sync)
+	}
 	return fmt.Sprintf("%s/cap=%d/expiry=%v/sync=%v", v.Policy, v.Cap, v.Expiry, v.Sync)
 }
 
@@ -92,6 +97,9 @@ func runSeq(v variant, ops []op, inBubble bool) (out outcome) {
 	})
 	if v.Expiry {
 		b = b.WithExpiry(expiry).WithClock(clock)
+	}
+	if v.Neg {
+		b = b.WithExpiry(-expiry).WithClock(clock)
 	}
 	if v.Sync {
 		b = b.Synchronous()
